@@ -25,6 +25,36 @@ MinFix(costs, M) ==
   IN IF M2 = M THEN M ELSE MinFix(costs, M2)
 MinCost(costs) == MinFix(costs, [r \in Rules |-> INF])
 
+(***************************************************************************)
+(* ALGORITHM layer: rule_min_costs as coded (grammar.rs).  costs[i] starts *)
+(* at 0 and rises; done[i] fixes it.  Rules are visited in index order and *)
+(* updated in place, so later rules of a round see earlier updates.  The   *)
+(* loop only ends when every rule is done: a round that changes nothing    *)
+(* while some rule is not done repeats forever ("stuck").                  *)
+(***************************************************************************)
+MinAlgRule(costs, st, i) ==
+  IF st.d[i] THEN st
+  ELSE LET pc(p)  == FoldLeft(LAMBDA a, b : a + b, 0,
+                              [k \in 1 .. PLen(p) |-> IF IsToken(Rhs(p)[k]) THEN TokCost(costs, Rhs(p)[k])
+                                                      ELSE st.c[RuleOf(Rhs(p)[k])]])
+           cm(p)  == \A k \in 1 .. PLen(p) : IsToken(Rhs(p)[k]) \/ st.d[RuleOf(Rhs(p)[k])]
+           cs     == {pc(p) : p \in {q \in ProdsOf(i) : cm(q)}}
+           ns     == {pc(p) : p \in {q \in ProdsOf(i) : ~cm(q)}}
+       IN IF cs # {} /\ (ns = {} \/ Min(cs) < Min(ns))
+          THEN [c |-> [st.c EXCEPT ![i] = Min(cs)], d |-> [st.d EXCEPT ![i] = TRUE]]
+          ELSE IF ns # {} THEN [c |-> [st.c EXCEPT ![i] = Min(ns)], d |-> st.d]
+          ELSE st
+RECURSIVE MinAlgRound(_, _, _)
+MinAlgRound(costs, st, i) == IF i = C.nr THEN st ELSE MinAlgRound(costs, MinAlgRule(costs, st, i), i + 1)
+RECURSIVE MinAlgLoop(_, _, _)
+MinAlgLoop(costs, st, fuel) ==
+  IF \A r \in Rules : st.d[r] THEN [status |-> "ok", c |-> st.c]
+  ELSE LET st2 == MinAlgRound(costs, st, 0) IN
+       IF st2 = st THEN [status |-> "stuck", c |-> st.c]
+       ELSE IF fuel = 0 \/ \E r \in Rules : st2.c[r] > 65535 THEN [status |-> "overflow", c |-> st2.c]
+       ELSE MinAlgLoop(costs, st2, fuel - 1)
+MinCostAlg(costs) == MinAlgLoop(costs, [c |-> [r \in Rules |-> 0], d |-> [r \in Rules |-> FALSE]], 300)
+
 \* Maximum cost: longest "path" over productive productions with positive-cycle detection.
 \* M[r] = -1 means "no derivation found yet".
 MaxRound(costs, M) ==
